@@ -20,6 +20,7 @@ def norm(node_or_text) -> str:
     else:
         t = str(node_or_text)
     t = re.sub(r'\s+', ' ', t).strip()
+    t = re.sub(r'\b_inl\d+_', '', t)          # locals of an integrated helper keep the names they had there
     return t[:160]
 
 
